@@ -451,63 +451,6 @@ Qed.
 Lemma skipn_firstn_all {A} (l : list A) n : (n <= length l)%nat -> firstn (length l - n) (skipn n l) = skipn n l.
 Proof. intros H. apply firstn_all2. rewrite skipn_length. lia. Qed.
 
-Lemma name_change_total s : utf8_valid s = true -> total (name_change s).
-Proof.
-  intros Hv. unfold name_change.
-  destruct (split_on DOT s) as [|first rest] eqn:Hs; [apply total_ok|].
-  pose proof (first_part_nca s first rest Hv Hs) as Hn.
-  destruct (rfind_sub [SPC; LPAR] first) as [pp|] eqn:R; [|apply total_ok].
-  apply rfind_sub_some in R.
-  assert (P0 : nth_error first (pp + 0) = Some SPC) by (eapply prefixb_skipn_nth; [exact R|reflexivity]).
-  assert (P1 : nth_error first (pp + 1) = Some LPAR) by (eapply prefixb_skipn_nth; [exact R|reflexivity]).
-  rewrite Nat.add_0_r in P0.
-  pose proof (nth_error_lt _ _ _ P0) as L0. pose proof (nth_error_lt _ _ _ P1) as L1.
-  assert (Bpp : is_char_boundary first pp = true) by (eapply boundary_at_noncont; [exact P0|reflexivity]).
-  rewrite (slice_ok first pp (length first)); [|lia|lia|exact Bpp|apply boundary_len].
-  cbn [bind]. rewrite skipn_firstn_all by lia.
-  destruct (find_sub [RPAR] (skipn pp first)) as [ep|] eqn:F; [|apply total_ok].
-  pose proof (find_sub_some _ _ _ F) as Fp.
-  assert (Hsk : exists r2, skipn pp first = SPC :: LPAR :: r2).
-  { apply prefixb_spec in R as [t R]. exists t. exact R. }
-  destruct Hsk as [r2 Hsk]. rewrite Hsk in F. apply find_rpar_ge2 in F.
-  assert (PE : nth_error (skipn pp first) (ep + 0) = Some RPAR) by (eapply prefixb_skipn_nth; [exact Fp|reflexivity]).
-  rewrite Nat.add_0_r in PE. rewrite nth_error_skipn' in PE.
-  pose proof (nth_error_lt _ _ _ PE) as LE.
-  replace (length first =? 0)%nat with false by (symmetry; apply Nat.eqb_neq; lia).
-  destruct (pp + ep =? length first - 1)%nat eqn:EQ; [|apply total_ok].
-  rewrite (slice_ok first (pp + 2) (pp + ep)); [|lia|lia| |].
-  2:{ replace (pp + 2)%nat with (S (pp + 1)) by lia.
-      eapply nca_boundary_after; [exact Hn|exact P1|unfold LPAR; lia]. }
-  2:{ eapply boundary_at_noncont; [exact PE|reflexivity]. }
-  cbn [bind].
-  destruct (parse_u32 _) as [number|]; [|apply total_ok].
-  destruct (number =? 4294967295); [apply total_ok|].
-  rewrite (slice_ok first 0 pp); [|lia|lia|reflexivity|exact Bpp].
-  apply total_ok.
-Qed.
-
-Lemma hostname_change_total s : utf8_valid s = true -> total (hostname_change s).
-Proof.
-  intros Hv. unfold hostname_change.
-  destruct (split_on DOT s) as [|first rest] eqn:Hs; [apply total_ok|].
-  pose proof (first_part_nca s first rest Hv Hs) as Hn.
-  destruct (rfind_sub [HYP] first) as [hp|] eqn:R; [|apply total_ok].
-  apply rfind_sub_some in R.
-  assert (P0 : nth_error first (hp + 0) = Some HYP) by (eapply prefixb_skipn_nth; [exact R|reflexivity]).
-  rewrite Nat.add_0_r in P0. pose proof (nth_error_lt _ _ _ P0) as L0.
-  rewrite (slice_ok first (hp + 1) (length first)); [|lia|lia| |apply boundary_len].
-  2:{ replace (hp + 1)%nat with (S hp) by lia.
-      eapply nca_boundary_after; [exact Hn|exact P0|unfold HYP; lia]. }
-  cbn [bind].
-  destruct (parse_u32 _) as [number|]; [|apply total_ok].
-  destruct (number =? 4294967295); [apply total_ok|].
-  rewrite (slice_ok first 0 hp); [|lia|lia|reflexivity|].
-  2:{ eapply boundary_at_noncont; [exact P0|reflexivity]. }
-  apply total_ok.
-Qed.
-
-(* ---- the argument checks of the public API ---- *)
-
 Lemma total_bind {A B} (r : res A) (f : A -> res B) :
   total r -> (forall a, r = Ok a -> total (f a)) -> total (bind r f).
 Proof. intros [H1 H2] H. apply bind_not_panic; assumption. Qed.
@@ -933,22 +876,6 @@ Proof.
   - apply (proj2 (encodable_conclusion s (D s H0))).
 Qed.
 
-Lemma validators_total s :
-  utf8_valid s = true ->
-  safe (check_domain_suffix s) /\ safe (check_service_name s)
-  /\ (forall lim, safe (check_service_name_length s lim)) /\ safe (check_hostname s)
-  /\ safe (check_label_lengths s) /\ safe (name_change s) /\ safe (hostname_change s)
-  /\ (exists r, normalize_hostname s = Ok r)
-  /\ safe (api_browse s) /\ safe (api_resolve_hostname s).
-Proof.
-  intros H. repeat split;
-    try apply check_domain_suffix_total; try apply (check_service_name_total s H);
-    try apply check_service_name_length_total; try apply check_hostname_total;
-    try apply check_label_lengths_total; try apply (name_change_total s H);
-    try apply (hostname_change_total s H); try apply normalize_hostname_total;
-    try apply api_browse_total; try apply api_resolve_hostname_total.
-Qed.
-
 Lemma register_total ty nm host :
   utf8_valid ty = true -> utf8_valid nm = true -> utf8_valid host = true ->
   (exists r, si_names ty nm host = Ok r) /\ safe (api_register ty nm host).
@@ -965,51 +892,6 @@ Proof.
   simpl in F. apply N.eqb_eq in F. subst x.
   rewrite slice_ok; [eauto|simpl; lia|lia| |apply boundary_len].
   eapply nca_boundary_after; [exact Hn|reflexivity|unfold USC; lia].
-Qed.
-
-(* ---- conflict renaming can leave the encodable names ---- *)
-
-(* a 60-byte instance name is accepted by register; the name the conflict handler derives
-   from it (name_change) has a 64-byte first label, which the encoder refuses with a panic *)
-Lemma rename_refuted :
-  exists ty nm host full renamed,
-    utf8_valid ty = true /\ utf8_valid nm = true /\ utf8_valid host = true
-    /\ api_register ty nm host = Ok tt
-    /\ full = escape_label nm ++ DOT :: ty
-    /\ name_change full = Ok renamed
-    /\ encodable renamed = false
-    /\ (forall pos, write_name [] pos renamed = Panic).
-Proof.
-  exists x_tcp, (rep 97 60), h_local, (escape_label (rep 97 60) ++ DOT :: x_tcp),
-         (rep 97 60 ++ [SPC; LPAR; 50; RPAR] ++ DOT :: x_tcp).
-  repeat split; try (intros; vm_compute; reflexivity).
-Qed.
-
-(* the same for the host name: 62 bytes + "-2" *)
-Lemma hostname_rename_refuted :
-  exists host renamed,
-    utf8_valid host = true /\ api_resolve_hostname host = Ok tt
-    /\ api_register x_tcp [105] host = Ok tt
-    /\ hostname_change host = Ok renamed
-    /\ encodable renamed = false
-    /\ (forall pos, write_name [] pos renamed = Panic).
-Proof.
-  exists (rep 104 62 ++ local_suffix), (rep 104 62 ++ [HYP; 50] ++ local_suffix).
-  repeat split; try (intros; vm_compute; reflexivity).
-Qed.
-
-(* ---- names taken from the wire ---- *)
-
-(* wire labels of at most 63 bytes whose presentation the encoder splits into an 81-byte
-   label: 40 bytes + backslash, then 40 bytes *)
-Lemma reencode_refuted :
-  exists ls,
-    forallb wire_label_ok ls = true
-    /\ encodable (present ls) = false
-    /\ (forall pos, write_name [] pos (present ls) = Panic).
-Proof.
-  exists [rep 97 40 ++ [BSL]; rep 98 40; [95;120]; [95;116;99;112]; [108;111;99;97;108]].
-  repeat split; try (intros; vm_compute; reflexivity).
 Qed.
 
 Definition Bnd (n : nat) (acc : list bytes) : Prop := Forall (fun x => (length x <= n)%nat) acc.
@@ -1102,3 +984,273 @@ Proof.
   apply api_register_names_total. apply wfs_nca.
   apply wfs_app; [apply wfs_escape, valid_wfs; exact Hnm|apply split_sub_domain_wfs; exact Hty].
 Qed.
+
+(* ------------------------------------------------------------------------------------ *)
+(* 7. conflict renaming since c85b8fe: split_first_label, label_with_suffix              *)
+(* ------------------------------------------------------------------------------------ *)
+
+(* a piece of text without an unescaped dot, as split_first_label scans it: a backslash
+   skips the next byte *)
+Inductive dotfree : bytes -> Prop :=
+| df_nil : dotfree []
+| df_esc n a : dotfree a -> dotfree (BSL :: n :: a)
+| df_plain c a : (c =? BSL) = false -> (c =? DOT) = false -> dotfree a -> dotfree (c :: a).
+
+Lemma fdp_some_len n : forall s i, (length s <= n)%nat -> first_dot_pos s = Some i ->
+  exists a r, s = a ++ DOT :: r /\ length a = i /\ dotfree a.
+Proof.
+  induction n as [|n IH]; intros s i Hl H.
+  - destruct s; [discriminate|simpl in Hl; lia].
+  - destruct s as [|c t]; [discriminate|]. simpl in H, Hl.
+    destruct (c =? BSL) eqn:E1.
+    + apply N.eqb_eq in E1. subst c. destruct t as [|m t']; [discriminate|].
+      destruct (first_dot_pos t') as [j|] eqn:F; [|discriminate]. simpl in H. inversion H; subst i.
+      destruct (IH t' j) as (a & r & -> & La & Da); [simpl in Hl; lia|exact F|].
+      exists (BSL :: m :: a), r. repeat split; [simpl; rewrite La; reflexivity|constructor; exact Da].
+    + destruct (c =? DOT) eqn:E2.
+      * apply N.eqb_eq in E2. subst c. inversion H; subst i. exists [], t. repeat split. constructor.
+      * destruct (first_dot_pos t) as [j|] eqn:F; [|discriminate]. simpl in H. inversion H; subst i.
+        destruct (IH t j) as (a & r & -> & La & Da); [lia|exact F|].
+        exists (c :: a), r. repeat split; [simpl; rewrite La; reflexivity|constructor; assumption].
+Qed.
+
+Definition rest_ok (first rest : bytes) : Prop :=
+  rest = [] \/ exists r, rest = DOT :: r /\ dotfree first.
+
+Lemma split_first_label_spec s :
+  exists first rest, split_first_label s = Ok (first, rest) /\ s = first ++ rest /\ rest_ok first rest.
+Proof.
+  unfold split_first_label. destruct (first_dot_pos s) as [i|] eqn:F.
+  - destruct (fdp_some_len (length s) s i (Nat.le_refl _) F) as (a & r & -> & La & Da). subst i.
+    assert (Bd : is_char_boundary (a ++ DOT :: r) (length a) = true).
+    { eapply (boundary_at_noncont _ _ DOT); [|reflexivity].
+      replace (length a) with (length a + 0)%nat by lia. rewrite nth_error_app_r. reflexivity. }
+    rewrite (slice_ok _ 0 (length a)); [|lia|rewrite app_length; lia|reflexivity|exact Bd].
+    cbn [bind]. rewrite (slice_ok _ (length a) (length (a ++ DOT :: r))); [|rewrite app_length; lia|lia|exact Bd|apply boundary_len].
+    cbn [bind]. exists a, (DOT :: r). split.
+    + rewrite firstn_skipn0, firstn_app, Nat.sub_diag, firstn_all. simpl firstn. rewrite app_nil_r.
+      rewrite skipn_firstn_all by (rewrite app_length; lia).
+      rewrite skipn_app, Nat.sub_diag, skipn_all. reflexivity.
+    + split; [reflexivity|]. right. exists r. split; [reflexivity|exact Da].
+  - exists s, []. split; [reflexivity|]. split; [rewrite app_nil_r; reflexivity|left; reflexivity].
+Qed.
+
+Lemma back_S s e : back_to_boundary s (S e) = if is_char_boundary s (S e) then S e else back_to_boundary s e.
+Proof. reflexivity. Qed.
+
+Lemma back_to_boundary_spec s : forall e,
+  is_char_boundary s (back_to_boundary s e) = true /\ (back_to_boundary s e <= e)%nat.
+Proof.
+  induction e as [|e IH].
+  - split; [reflexivity|simpl; lia].
+  - rewrite back_S. destruct (is_char_boundary s (S e)) eqn:B; [split; [exact B|lia]|].
+    destruct IH as [I1 I2]. split; [exact I1|lia].
+Qed.
+
+Lemma leading_bsl_odd_head s : Nat.odd (leading_bsl s) = true -> exists t, s = BSL :: t.
+Proof.
+  destruct s as [|c t]; simpl; [discriminate|]. destruct (c =? BSL) eqn:E; [|discriminate].
+  apply N.eqb_eq in E. subst c. eauto.
+Qed.
+
+Definition is_prefix (k b : bytes) : Prop := exists t, b = k ++ t.
+
+(* label_with_suffix never panics; what it keeps is a prefix of the base; the result is at
+   most 63 bytes long whenever the suffix is *)
+Lemma label_with_suffix_spec base suffix :
+  (length suffix <= 63)%nat ->
+  exists kept, label_with_suffix base suffix = Ok (kept ++ suffix) /\ is_prefix kept base
+    /\ (length (kept ++ suffix) <= 63)%nat.
+Proof.
+  intros Hs. unfold label_with_suffix, MAX_LABEL_LEN.
+  set (e0 := Nat.min (length base) (63 - length suffix)).
+  destruct (back_to_boundary_spec base e0) as [B1 B2].
+  set (e := back_to_boundary base e0) in *.
+  assert (He : (e <= length base)%nat) by (unfold e0 in B2; lia).
+  assert (He2 : (e + length suffix <= 63)%nat) by (unfold e0 in B2; lia).
+  rewrite (slice_ok base 0 e); [|lia|exact He|reflexivity|exact B1].
+  cbn [bind]. rewrite firstn_skipn0.
+  assert (Lk : length (firstn e base) = e) by (rewrite firstn_length; lia).
+  assert (Pk : is_prefix (firstn e base) base) by (exists (skipn e base); symmetry; apply firstn_skipn).
+  destruct ((e <? length base)%nat && Nat.odd (trailing_bsl (firstn e base))) eqn:C.
+  - apply andb_true_iff in C as [_ C]. unfold trailing_bsl in C.
+    apply leading_bsl_odd_head in C as [t C].
+    assert (Hk : firstn e base = rev t ++ [BSL]).
+    { rewrite <- (rev_involutive (firstn e base)), C. reflexivity. }
+    rewrite Hk in *. rewrite app_length in *. simpl length in *.
+    replace (length (rev t) + 1 =? 0)%nat with false by (symmetry; apply Nat.eqb_neq; lia).
+    rewrite (slice_ok _ 0 (length (rev t) + 1 - 1)); [|lia|rewrite app_length; simpl; lia|reflexivity|].
+    2:{ eapply (boundary_at_noncont _ _ BSL); [|reflexivity].
+        replace (length (rev t) + 1 - 1)%nat with (length (rev t) + 0)%nat by lia.
+        rewrite nth_error_app_r. reflexivity. }
+    cbn [bind]. rewrite firstn_skipn0.
+    replace (length (rev t) + 1 - 1)%nat with (length (rev t)) by lia.
+    rewrite firstn_app, Nat.sub_diag, firstn_all. simpl firstn. rewrite app_nil_r.
+    exists (rev t). split; [reflexivity|]. split.
+    + destruct Pk as [u Pu]. exists ([BSL] ++ u). rewrite Pu, <- app_assoc. reflexivity.
+    + rewrite app_length. lia.
+  - cbn [bind]. exists (firstn e base). split; [reflexivity|]. split; [exact Pk|].
+    rewrite app_length. lia.
+Qed.
+
+(* ---- decimal suffixes ---- *)
+
+Definition plain (b : N) : Prop := b < 128 /\ (b =? DOT) = false /\ (b =? BSL) = false.
+
+Lemma dec_fuel_plain f : forall n acc, Forall plain acc -> Forall plain (dec_fuel f n acc).
+Proof.
+  induction f as [|f IH]; intros n acc H; [exact H|]. simpl.
+  assert (P : plain (48 + n mod 10)).
+  { pose proof (N.mod_upper_bound n 10) as U. unfold plain, DOT, BSL.
+    repeat split; [lia|apply N.eqb_neq; lia|apply N.eqb_neq; lia]. }
+  destruct (n / 10 =? 0); [constructor; assumption|]. apply IH. constructor; assumption.
+Qed.
+
+Lemma dec_fuel_len f : forall n acc, (length (dec_fuel f n acc) <= f + length acc)%nat.
+Proof.
+  induction f as [|f IH]; intros n acc; [simpl; lia|]. simpl.
+  destruct (n / 10 =? 0); [simpl; lia|]. specialize (IH (n / 10) ((48 + n mod 10) :: acc)). simpl in IH. lia.
+Qed.
+
+Lemma dec_plain n : Forall plain (dec n).
+Proof. apply dec_fuel_plain. constructor. Qed.
+Lemma dec_len n : (length (dec n) <= 20)%nat.
+Proof. unfold dec. pose proof (dec_fuel_len 20 n []). simpl in *. lia. Qed.
+
+Lemma plain_SPC : plain SPC. Proof. repeat split. Qed.
+Lemma plain_LPAR : plain LPAR. Proof. repeat split. Qed.
+Lemma plain_RPAR : plain RPAR. Proof. repeat split. Qed.
+Lemma plain_HYP : plain HYP. Proof. repeat split. Qed.
+Lemma plain_2 : plain 50. Proof. repeat split. Qed.
+
+(* a suffix: plain bytes only, at least one *)
+Definition suffix_ok (s : bytes) : Prop := Forall plain s /\ s <> [] /\ (length s <= 63)%nat.
+
+Lemma paren_suffix_ok n : suffix_ok ([SPC; LPAR] ++ dec n ++ [RPAR]).
+Proof.
+  repeat split.
+  - constructor; [apply plain_SPC|]. constructor; [apply plain_LPAR|].
+    apply Forall_app. split; [apply dec_plain|constructor; [apply plain_RPAR|constructor]].
+  - discriminate.
+  - simpl. rewrite app_length. pose proof (dec_len n). simpl. lia.
+Qed.
+
+Lemma hyphen_suffix_ok n : suffix_ok ([HYP] ++ dec n).
+Proof.
+  repeat split.
+  - constructor; [apply plain_HYP|apply dec_plain].
+  - discriminate.
+  - simpl. pose proof (dec_len n). lia.
+Qed.
+
+Lemma default_paren_ok : suffix_ok [SPC; LPAR; 50; RPAR].
+Proof. repeat split; [repeat constructor; repeat split|discriminate|simpl; lia]. Qed.
+Lemma default_hyphen_ok : suffix_ok [HYP; 50].
+Proof. repeat split; [repeat constructor; repeat split|discriminate|simpl; lia]. Qed.
+
+(* ---- the shape of a renamed name ---- *)
+
+(* res is orig with the first label `first` replaced by (a prefix of first) ++ suffix *)
+Definition renamed_of (orig res : bytes) : Prop :=
+  exists first rest kept suffix,
+    orig = first ++ rest /\ rest_ok first rest /\ is_prefix kept first /\ suffix_ok suffix
+    /\ (length (kept ++ suffix) <= 63)%nat /\ res = kept ++ suffix ++ rest.
+
+Lemma is_prefix_trans a b c : is_prefix a b -> is_prefix b c -> is_prefix a c.
+Proof. intros [t ->] [u ->]. exists (t ++ u). rewrite app_assoc. reflexivity. Qed.
+
+Lemma slice_prefix s n r : slice s 0 n = Ok r -> is_prefix r s.
+Proof.
+  unfold slice. destruct (_ && _); [|discriminate]. intros H. inversion H; subst.
+  rewrite firstn_skipn0. exists (skipn n s). symmetry. apply firstn_skipn.
+Qed.
+
+Lemma lws_renamed first rest base suffix :
+  rest_ok first rest -> is_prefix base first -> suffix_ok suffix ->
+  exists new, label_with_suffix base suffix = Ok new /\ renamed_of (first ++ rest) (new ++ rest).
+Proof.
+  intros R P S. destruct S as (S1 & S2 & S3).
+  destruct (label_with_suffix_spec base suffix S3) as (kept & E & Pk & L).
+  exists (kept ++ suffix). split; [exact E|].
+  exists first, rest, kept, suffix. repeat split; try assumption.
+  - eapply is_prefix_trans; eassumption.
+  - rewrite <- app_assoc. reflexivity.
+Qed.
+
+Lemma nca_prefix k s : is_prefix k s -> nca s = true -> nca k = true.
+Proof. intros [t ->]. apply nca_app_l. Qed.
+
+(* name_change: never panics on text that could follow an ASCII character (in particular on
+   valid UTF-8), and produces a renamed_of *)
+Lemma name_change_renamed s : wfs s -> exists r, name_change s = Ok r /\ renamed_of s r.
+Proof.
+  intros Hw. unfold name_change.
+  destruct (split_first_label_spec s) as (first & rest & E & -> & R). rewrite E. cbn [bind].
+  assert (Hn : nca first = true) by (eapply nca_prefix; [exists rest; reflexivity|apply wfs_nca; exact Hw]).
+  destruct (lws_renamed first rest first [SPC; LPAR; 50; RPAR] R (ex_intro _ [] (eq_sym (app_nil_r _))) default_paren_ok)
+    as (dflt & Ed & Rd).
+  rewrite Ed. cbn [bind].
+  assert (DONE : exists r, Ok (dflt ++ rest) = Ok r /\ renamed_of (first ++ rest) r) by eauto.
+  destruct (rfind_sub [SPC; LPAR] first) as [pp|] eqn:Rf; [|exact DONE].
+  apply rfind_sub_some in Rf.
+  assert (P0 : nth_error first (pp + 0) = Some SPC) by (eapply prefixb_skipn_nth; [exact Rf|reflexivity]).
+  assert (P1 : nth_error first (pp + 1) = Some LPAR) by (eapply prefixb_skipn_nth; [exact Rf|reflexivity]).
+  rewrite Nat.add_0_r in P0.
+  pose proof (nth_error_lt _ _ _ P0) as L0. pose proof (nth_error_lt _ _ _ P1) as L1.
+  assert (Bpp : is_char_boundary first pp = true) by (eapply boundary_at_noncont; [exact P0|reflexivity]).
+  rewrite (slice_ok first pp (length first)); [|lia|lia|exact Bpp|apply boundary_len].
+  cbn [bind]. rewrite skipn_firstn_all by lia.
+  destruct (find_sub [RPAR] (skipn pp first)) as [ep|] eqn:F; [|exact DONE].
+  pose proof (find_sub_some _ _ _ F) as Fp.
+  assert (Hsk : exists r2, skipn pp first = SPC :: LPAR :: r2).
+  { apply prefixb_spec in Rf as [t Rf]. exists t. exact Rf. }
+  destruct Hsk as [r2 Hsk]. rewrite Hsk in F. apply find_rpar_ge2 in F.
+  assert (PE : nth_error (skipn pp first) (ep + 0) = Some RPAR) by (eapply prefixb_skipn_nth; [exact Fp|reflexivity]).
+  rewrite Nat.add_0_r in PE. rewrite nth_error_skipn' in PE.
+  pose proof (nth_error_lt _ _ _ PE) as LE.
+  replace (length first =? 0)%nat with false by (symmetry; apply Nat.eqb_neq; lia).
+  destruct (pp + ep =? length first - 1)%nat eqn:EQ; [|exact DONE].
+  rewrite (slice_ok first (pp + 2) (pp + ep)); [|lia|lia| |].
+  2:{ replace (pp + 2)%nat with (S (pp + 1)) by lia.
+      eapply nca_boundary_after; [exact Hn|exact P1|unfold LPAR; lia]. }
+  2:{ eapply boundary_at_noncont; [exact PE|reflexivity]. }
+  cbn [bind].
+  destruct (parse_u32 _) as [number|]; [|exact DONE].
+  destruct (number =? 4294967295); [exact DONE|].
+  destruct (slice first 0 pp) as [base| | |] eqn:Sb.
+  2-4: rewrite (slice_ok first 0 pp) in Sb by (try lia; try reflexivity; exact Bpp); discriminate.
+  cbn [bind].
+  destruct (lws_renamed first rest base _ R (slice_prefix _ _ _ Sb) (paren_suffix_ok (number + 1))) as (new & En & Rn).
+  rewrite En. cbn [bind]. eauto.
+Qed.
+
+Lemma hostname_change_renamed s : wfs s -> exists r, hostname_change s = Ok r /\ renamed_of s r.
+Proof.
+  intros Hw. unfold hostname_change.
+  destruct (split_first_label_spec s) as (first & rest & E & -> & R). rewrite E. cbn [bind].
+  assert (Hn : nca first = true) by (eapply nca_prefix; [exists rest; reflexivity|apply wfs_nca; exact Hw]).
+  destruct (lws_renamed first rest first [HYP; 50] R (ex_intro _ [] (eq_sym (app_nil_r _))) default_hyphen_ok)
+    as (dflt & Ed & Rd).
+  rewrite Ed. cbn [bind].
+  assert (DONE : exists r, Ok (dflt ++ rest) = Ok r /\ renamed_of (first ++ rest) r) by eauto.
+  destruct (rfind_sub [HYP] first) as [hp|] eqn:Rf; [|exact DONE].
+  apply rfind_sub_some in Rf.
+  assert (P0 : nth_error first (hp + 0) = Some HYP) by (eapply prefixb_skipn_nth; [exact Rf|reflexivity]).
+  rewrite Nat.add_0_r in P0. pose proof (nth_error_lt _ _ _ P0) as L0.
+  rewrite (slice_ok first (hp + 1) (length first)); [|lia|lia| |apply boundary_len].
+  2:{ replace (hp + 1)%nat with (S hp) by lia.
+      eapply nca_boundary_after; [exact Hn|exact P0|unfold HYP; lia]. }
+  cbn [bind].
+  destruct (parse_u32 _) as [number|]; [|exact DONE].
+  destruct (number =? 4294967295); [exact DONE|].
+  destruct (slice first 0 hp) as [base| | |] eqn:Sb.
+  2-4: rewrite (slice_ok first 0 hp) in Sb by (try lia; try reflexivity; eapply boundary_at_noncont; [exact P0|reflexivity]); discriminate.
+  cbn [bind].
+  destruct (lws_renamed first rest base _ R (slice_prefix _ _ _ Sb) (hyphen_suffix_ok (number + 1))) as (new & En & Rn).
+  rewrite En. cbn [bind]. eauto.
+Qed.
+
+Lemma name_change_total s : utf8_valid s = true -> total (name_change s).
+Proof. intros H. destruct (name_change_renamed s (valid_wfs s H)) as (r & -> & _). apply total_ok. Qed.
+Lemma hostname_change_total s : utf8_valid s = true -> total (hostname_change s).
+Proof. intros H. destruct (hostname_change_renamed s (valid_wfs s H)) as (r & -> & _). apply total_ok. Qed.
